@@ -38,7 +38,7 @@ func clampBatch(b int) int {
 	return b
 }
 
-// verif:harness props=C03,C05,C02 tier=quick native=yes weight=14
+// verif:harness props=C03,C05,C02 tier=quick native=yes weight=14 tonly=C03
 // verif:bounds N=2 live messages (thorough 3) in any of the 5 states with arbitrary timestamps and attempts; batch from {0,1,2,200} (thorough adds -1,3); arbitrary lease TTL incl. <=0 (default 30s); dangling lease-index entries and an order index with a ghost id / a duplicate id explored; MaxWait=0
 func VerifC03Dequeue() {
 	n := 2
@@ -58,7 +58,7 @@ func VerifC03Dequeue() {
 	dequeueCore(w, n, batch, "", "")
 }
 
-// verif:harness props=C03,C05 tier=quick native=yes weight=40
+// verif:harness props=C03,C05 tier=quick native=yes weight=40 tonly=C05
 // verif:bounds N=2 messages (thorough 3) in states {queued, leased, dead} with symbolic route r0|r1 and target t0|t1; dequeue filter from {route, route+target, target}; batch from {1,200}
 func VerifC05DequeueFilter() {
 	n := 2
@@ -172,7 +172,7 @@ func VerifC05CompactOrder() {
 	vrt.Assert("C05.compact.none-hidden", err2 == nil && len(r2.Items) == present)
 }
 
-// verif:harness props=C03,C05 tier=quick native=yes weight=25
+// verif:harness props=C03,C05 tier=quick native=yes weight=25 tonly=C03
 // verif:bounds N=2 messages (thorough 3); Dequeue(batch<=N) at now1, one intervening operation X from {none, ack, nack(d), extend(e), mark-dead, cancel, cancel+requeue} on the first returned lease, then Dequeue at an arbitrary now2 >= now1; all durations symbolic
 func VerifC03TwoStep() {
 	n := 2
